@@ -249,14 +249,20 @@ def gen_literal(rng, w, scope, must_mention=None, **kw):
 GRID = [Fraction(k, 4) for k in range(-8, 9)]
 
 
-def gen_fluent_term(rng, w, scope, **kw):
+def gen_fluent_term(rng, w, scope, must_mention=None, **kw):
     names = list(w.funcs)
     rng.shuffle(names)
     for fn in names:
-        a = args_for(rng, w, w.funcs[fn], scope, **kw)
-        if a is not None:
-            return [fn] + a
+        for _ in range(3 if must_mention else 1):
+            a = args_for(rng, w, w.funcs[fn], scope, **kw)
+            if a is not None and (not must_mention or must_mention in a):
+                return [fn] + a
     return None
+
+
+# constants: mostly halves; sometimes two-decimal ones whose products need more decimals than a 2-decimal printer keeps
+HALVES = [Fraction(k, 2) for k in range(-4, 7)]
+FINE = [Fraction(1, 4), Fraction(1, 20), Fraction(7, 4), Fraction(-3, 4), Fraction(3, 20)]
 
 
 def gen_num_expr(rng, w, scope, depth=1, ops=("+", "-", "*"), **kw):
@@ -266,26 +272,26 @@ def gen_num_expr(rng, w, scope, depth=1, ops=("+", "-", "*"), **kw):
             t = gen_fluent_term(rng, w, scope, **kw)
             if t is not None:
                 return t
-        return frac_str(rng.choice([Fraction(k, 2) for k in range(-4, 7)]))
+        return frac_str(rng.choice(FINE if rng.random() < 0.2 else HALVES))
     op = rng.choice(ops)
     return [op, gen_num_expr(rng, w, scope, depth - 1, ops, **kw), gen_num_expr(rng, w, scope, depth - 1, ops, **kw)]
 
 
-def gen_comparison(rng, w, scope, **kw):
-    lhs = gen_fluent_term(rng, w, scope, **kw)
+def gen_comparison(rng, w, scope, must_mention=None, **kw):
+    lhs = gen_fluent_term(rng, w, scope, must_mention=must_mention, **kw)
     if lhs is None:
         return None
     if rng.random() < 0.3:
         lhs = ["+", lhs, gen_num_expr(rng, w, scope, 0, **kw)] if rng.random() < 0.5 else \
               ["-", gen_num_expr(rng, w, scope, 0, **kw), lhs]
-    rhs = gen_num_expr(rng, w, scope, rng.choice([0, 0, 1]), **kw)
+    rhs = gen_num_expr(rng, w, scope, rng.choice([0, 0, 1, 1, 2]), **kw)
     return [rng.choice(["<", "<=", ">", ">=", "="]), lhs, rhs]
 
 
 def gen_leaf(rng, w, scope, numeric=True, equality=True, must_mention=None, **kw):
     r = rng.random()
-    if numeric and w.funcs and r < 0.25 and not must_mention:
-        c = gen_comparison(rng, w, scope, **kw)
+    if numeric and w.funcs and r < 0.25:
+        c = gen_comparison(rng, w, scope, must_mention=must_mention, **kw)
         if c:
             return c
     if equality and r < 0.4 and len(scope) >= 2 and not must_mention:
@@ -494,8 +500,82 @@ def relevant_fluents(wm: "model.World", f, b) -> List[tuple]:
     return out
 
 
+def comparison_instances(wm: "model.World", f, b) -> List[tuple]:
+    """every ground instance (op, lhs, rhs, binding) of a numeric comparison inside a condition or effect"""
+    out = []
+
+    def go(f, b):
+        if not isinstance(f, list) or not f:
+            return
+        h = f[0]
+        if h in ("forall", "exists"):
+            vs = model.typed_list(f[1])
+            for combo in product(*[wm.of_type(t) for _, t in vs]):
+                b2 = dict(b)
+                b2.update({v: o for (v, _), o in zip(vs, combo)})
+                go(f[2], b2)
+            return
+        if h in model.CMP and len(f) == 3 and (isinstance(f[1], list) or isinstance(f[2], list)) \
+                and (model.is_numeric_term(wm, f[1]) and model.is_numeric_term(wm, f[2])):
+            out.append((h, f[1], f[2], b))
+            return
+        if h in ("and", "or", "not", "imply", "when"):
+            for x in f[1:]:
+                go(x, b)
+
+    go(f, b)
+    return out
+
+
+BOUNDARY_DELTAS = [Fraction(1, 500), Fraction(-1, 500), Fraction(1, 250), Fraction(-1, 250), Fraction(1, 50), Fraction(-1, 50)]
+
+
+def boundary_valuations(rng, wm: "model.World", formulas_with_bindings, base: dict, n: int) -> List[dict]:
+    """valuations that put one comparison instance a hair (2e-3 .. 2e-2, well outside the library's 1e-4
+    tolerance) on either side of its threshold: for a comparison that is affine in one of its fluents (the
+    others fixed at `base`), that fluent is moved to the exact boundary point plus a small offset, rounded to
+    4 decimals so that the problem text carries it exactly.  These are the states in which a threshold that
+    moved by a rounding error (0.125 printed as 0.12) changes the answer; grid valuations never get there."""
+    insts = []
+    for f, b in formulas_with_bindings:
+        insts += comparison_instances(wm, f, b)
+    rng.shuffle(insts)
+    out = []
+    for op, lhs, rhs, b in insts:
+        if len(out) >= n:
+            break
+        keys = relevant_fluents(wm, [op, lhs, rhs], b)
+        if not keys:
+            continue
+        k = rng.choice(keys)
+        if k not in base:
+            continue
+
+        def g(x):
+            v = dict(base)
+            v[k] = Fraction(x)
+            st = (frozenset(), v)
+            return model.num_eval(wm, lhs, st, b) - model.num_eval(wm, rhs, st, b)
+
+        try:
+            g0, g1, g2 = g(0), g(1), g(2)
+        except (model.Outside, model.ModelError, ZeroDivisionError):
+            continue
+        slope = g1 - g0
+        if slope == 0 or g2 - g1 != slope:
+            continue
+        x = -g0 / slope + rng.choice(BOUNDARY_DELTAS) / slope
+        x = Fraction(round(x * 10000), 10000)
+        if abs(x) > 10 ** 6 or abs(g(x)) < Fraction(1, 1000):
+            continue
+        v = dict(base)
+        v[k] = x
+        out.append(v)
+    return out
+
+
 def covering_states(rng, wm: "model.World", w: W, formulas_with_bindings, base_density=0.5,
-                    max_exhaustive_bits=7, n_random=10, n_valuations=3):
+                    max_exhaustive_bits=7, n_random=10, n_valuations=3, n_boundary=0):
     """states that exercise the given (formula, binding) instances:
     all 2^k assignments of the relevant atoms when k small, else random + single-atom flips;
     crossed with a few numeric valuations.  Irrelevant atoms are random but fixed per block."""
@@ -514,6 +594,8 @@ def covering_states(rng, wm: "model.World", w: W, formulas_with_bindings, base_d
     vals = []
     for _ in range(n_valuations if relf else 1):
         vals.append({k: rng.choice(GRID) for k in all_fl})
+    if n_boundary and relf:
+        vals += boundary_valuations(rng, wm, formulas_with_bindings, vals[0], n_boundary)
     states = []
     if len(rel) <= max_exhaustive_bits:
         for mask in range(1 << len(rel)):
